@@ -69,3 +69,22 @@ CLAIMS["C16"] = ("monotone-counter rule over the functions reachable from get_se
  "strict increase of the time component), every generated id is formatted after an increment as identity;high;low[;optional] with "
  "the identity first, generation happens only for str input (bytes are carried unchanged, cf. C02) and on bulk update only when "
  "origin_host is given without session_id. Clock behaviour across process restarts is not decided.", "DESIGN.md section 4, C16")
+CLAIMS["C06"] = ("bounded path enumeration of every state's run() (event helpers inlined) with RFC 6733 section 5.6 invariants evaluated over all extracted paths; dependence and table checks",
+ "The complete path table of the five implemented states (44 paths on the current tree) is extracted statically and every path is "
+ "checked against the RFC rows the library implements (open only after a validated capabilities exchange, one DPR then Closing on "
+ "local stop, DPA-then-Closed on DPR, Closed on peer disconnect / non-CEA, delivery only while Open and only for non-base messages); "
+ "validators must compare with the configured peer identity with thresholds equal to the number of mandatory checks; the state table "
+ "is exhaustive, every transition into Closed closes the transport, the watchdog depends on the configured timeout, and the six "
+ "classifiers test the right R-bit polarity and command codes. Timing, sockets and the election states are not decided.",
+ "DESIGN.md section 4, C06")
+CLAIMS["C07"] = ("CFG must-define of both identifiers in create_answer, command/template/class table checks, state-machine path table (sent once per handler), call-path check for synchronous serialisation, who-may-write rule",
+ "Every path of create_answer copies both identifiers from the same-named request fields onto the template selected by the request's "
+ "command code; templates are built from answer classes of the same command code with Result-Code and local Origin-* AVPs; on every "
+ "state-machine path a built answer is sent exactly once in the handler that built it, before another message is taken, and is "
+ "serialised synchronously; no other code writes identifier fields. Identifier values over sequences are not decided.",
+ "DESIGN.md section 4, C07")
+CLAIMS["C11"] = ("effect classification of every list-mutating method + CFG must-pass pairing rules, SSA-name alias rule, equality-vs-identity rule, abstract evaluation of the length arithmetic",
+ "Every method of DiameterMessage and GroupedType that mutates `_avps` pairs the mutation, on all paths, with the matching name-map "
+ "update and a length/`_data` update (or a re-deriving call); both views receive the same object; no ==-based list operation is used "
+ "on AVPs (DiameterAVP.__eq__ compares encodings); pop/cleanup subtract what append added; bulk data updates end with refresh(). "
+ "Freshness of the `__N` name suffix across histories is not decided.", "DESIGN.md section 4, C11")
